@@ -141,3 +141,88 @@ def feat_sig(f: J) -> str:
     if f.get("bitpos"):
         parts.append("bitpos")
     return "/".join(parts)
+
+
+def requested_in(decoded: Any, requested: Any) -> bool:
+    """True if every value the caller supplied is found (recursively) in the decoded result."""
+    if isinstance(requested, dict):
+        if not isinstance(decoded, dict):
+            return False
+        for k, v in requested.items():
+            if v is None:
+                continue  # None means "not supplied" for odxtools
+            if k not in decoded or not requested_in(decoded[k], v):
+                return False
+        return True
+    if isinstance(decoded, (list, tuple)) and len(decoded) == 0 and \
+            isinstance(requested, (list, tuple, bytes, bytearray, str)) and len(requested) == 0:
+        return True  # any empty sequence given for a field is an empty list of items
+    if isinstance(requested, (list, tuple)) and not isinstance(requested, (bytes, bytearray)):
+        if not isinstance(decoded, (list, tuple)) or len(decoded) != len(requested):
+            return False
+        return all(requested_in(d, r) for d, r in zip(decoded, requested))
+    return refodx.values_equal(decoded, requested)
+
+
+def describe_param(ref: refodx.Ref, p: J) -> str:
+    """Categorical description of what a parameter is made of (for signatures)."""
+    if p.get("dop") and p["dop"] in ref.dobjs:
+        o = ref.dobjs[p["dop"]]
+        if o["t"] in ("DOP", "DTCDOP"):
+            d = o["dct"]
+            parts = [p["p"], o["t"], d["k"], d["base"], str(d.get("enc") or "-")]
+            if d.get("mask") is not None:
+                parts.append("condensed-mask" if d.get("cond") else "mask")
+            if o["compu"]["cat"] != "IDENTICAL":
+                parts.append(o["compu"]["cat"])
+            return "/".join(parts)
+        return p["p"] + "/" + o["t"]
+    return p["p"]
+
+
+def offender(ref: refodx.Ref, msg: J, decoded: Any, expected: Any) -> str:
+    """Which parameter of the message reads back differently from what was requested."""
+    if not isinstance(expected, dict) or not isinstance(decoded, dict):
+        return "message"
+    names = {p["name"] for p in msg["params"]}
+    for k, v in expected.items():
+        if k not in names and v is not None:
+            return "unknown-parameter"
+    for p in msg["params"]:
+        n = p["name"]
+        if expected.get(n) is None:
+            continue
+        if n not in decoded or not requested_in(decoded[n], expected[n]):
+            o = ref.dobjs.get(p.get("dop") or "")
+            if o is not None and o["t"] == "STRUCT" and isinstance(expected[n], dict) and \
+                    isinstance(decoded.get(n), dict):
+                inner = offender(ref, o, decoded[n], expected[n])
+                if inner not in ("unlocated", "message"):
+                    return inner
+            return describe_param(ref, p)
+    return "unlocated"
+
+
+def coarse_cell(f: J) -> str:
+    parts = [str(f.get("dct") or f.get("shape")), str(f.get("base") or ""), str(f.get("enc") or "")]
+    if f.get("mask") is not None:
+        parts.append("condensed-mask" if f.get("cond") else "mask")
+    if f.get("compu") not in (None, "IDENTICAL"):
+        parts.append(str(f.get("compu")))
+    return "/".join(p for p in parts if p)
+
+
+def vclass(v: Any) -> str:
+    if v is None:
+        return "None"
+    if isinstance(v, bool):
+        return "bool"
+    if isinstance(v, int):
+        return "int"
+    if isinstance(v, float):
+        return "float"
+    if isinstance(v, str):
+        return "str"
+    if isinstance(v, (bytes, bytearray)):
+        return type(v).__name__
+    return type(v).__name__
